@@ -726,7 +726,15 @@ class Engine:
         return no, self.c.get('loops', {}).get(no, {})
 
     def havoc_mods(self, st, mods, taints, tag, ghosts=None):
-        st.n_writes = getattr(st, 'n_writes', 0) + 1
+        # write epochs (see comp_term): a havocked local advances its own epoch, a havocked field the global one
+        w = dict(getattr(st, 'writes', {}))
+        for m_ in mods:
+            nm_ = m_.lstrip('?')
+            if nm_.startswith('@'):
+                st.n_writes = getattr(st, 'n_writes', 0) + 1
+            else:
+                w[nm_] = w.get(nm_, 0) + 1
+        st.writes = w
         mods = [m for m in mods if not m.startswith('?')] + \
                [m[1:] for m in mods if m.startswith('?') and m[1:] in st.env and m[1:] not in mods]
         for m in [m for m in mods if m.startswith('@')]:
